@@ -154,7 +154,8 @@ pub mod sched {
 
     pub static mut SPLITS: u32 = 100;
 
-    /// tear model: first half, scheduling point, second half
+    /// tear model: scheduling point, first half, scheduling point, second half (the point in
+    /// front lets the other thread act between the load of the cell number and the copy)
     pub unsafe fn split_copy<T>(src: *const T, dst: *mut T, count: usize) {
         unsafe {
             let n = count * core::mem::size_of::<T>();
@@ -162,6 +163,7 @@ pub mod sched {
             let d = dst as *mut u8;
             let half = n / 2;
             let mut i = 0;
+            yield_point();
             while i < half {
                 *d.add(i) = *s.add(i);
                 i += 1;
@@ -238,17 +240,17 @@ pub mod sched {
     fn do_load() {
         unsafe {
             let floor = BOOK.completed;
-            let loan_at_start = BOOK.loan_open == 1;
             let v = atomic().load();
-            // newest value that may legitimately be visible: everything started is either published
-            // or being published, except an open loan that stayed open during the whole load
-            let ceil = if loan_at_start && BOOK.loan_open == 1 { BOOK.next - 2 } else { BOOK.next - 1 };
+            // newest value that may legitimately be visible: everything started is published or
+            // being published, except the value of a loan that is still unpublished when the load
+            // returns (written into the write cell, never handed to readers so far)
+            let ceil = if BOOK.loan_open == 1 { BOOK.next - 2 } else { BOOK.next - 1 };
             if BOOK.loan_open == 1 {
                 BOOK.loads_during_loan += 1;
             }
             assert!(is_pair(v), "c12: torn read (mixture of two writes)");
             assert!(v[0] >= floor, "c12: load returned a value older than a store completed before it began");
-            assert!(v[0] <= ceil, "c12: load returned a value that was never stored");
+            assert!(v[0] <= ceil, "c12: load returned a value that was never published");
             assert!(v[0] >= BOOK.last_seen, "c12: successive loads went back to an older value");
             BOOK.last_seen = v[0];
         }
